@@ -70,7 +70,20 @@ fn check_string(ctx: &mut Ctx, w: &World, s: &str, origin: &str) -> String {
             Ok((ast, errs)) => format!("tree {} {}", errs.len(), tree_of(ast)),
         };
         let answer = ctx.model.ask(&format!("C16 parse2 {}", crate::model::hex(s.as_bytes())));
-        let (m_strict, m_lenient) = answer.split_once('|').unwrap_or((answer.as_str(), "?"));
+        let mut parts = answer.splitn(3, '|');
+        let (m_strict, m_lenient, m_ff) = (parts.next().unwrap_or("?"), parts.next().unwrap_or("?"), parts.next().unwrap_or("?"));
+        // the agreement statement (C16_lenient_agrees_chars) evaluated on this text: no catalogued
+        // divergence feature + strict accepts  =>  lenient returns the same tree and no error
+        if m_ff == "1" {
+            if let (Ok(Ok(a)), Ok((l, errs))) = (&strict, &lenient) {
+                ctx.report.count("agreement:feature-free-and-strict-ok");
+                if a != l || !errs.is_empty() {
+                    ctx.report.violation("model", "C16:agreement-predicate-refuted", format!("{}: no catalogued divergence feature (featureFree) and strict accepts, but lenient returns {:?} with {} errors (strict: {:?})", short(s), l, errs.len(), a), case.clone());
+                }
+            }
+        } else if matches!(&strict, Ok(Ok(_))) {
+            ctx.report.count("agreement:strict-ok-with-feature");
+        }
         let model = normalise_model_tree(m_strict);
         let model_l = match m_lenient.strip_prefix("tree ").and_then(|r| r.split_once(' ')) {
             Some((n, t)) => format!("tree {n} {}", normalise_model_tree(&format!("tree {t}")).trim_start_matches("tree ")),
